@@ -14,6 +14,7 @@ SINGLES = {
     'uhandle': dict(src='harness/uhandle.cc', flags=SAN + ['-O1']),
     'rw': dict(src='harness/rw.cc', flags=SAN + ['-O1']),
     'threads': dict(src='harness/threads.cc', flags=['-fsanitize=thread', '-O1']),
+    'threads_asan': dict(src='harness/threads.cc', flags=SAN + ['-O1']),
 }
 SETUP_EXTRA = []
 
@@ -113,7 +114,7 @@ PROPS['C20'] = dict(level='exploration', jobs=single_jobs('endian', 4, 16),
 
 def table_jobs(b, prop, tier, seed):
     jobs = []
-    pools = [(1, 16)] if tier == 'quick' else [(1, 16), (seed + 100, 24)]
+    pools = [(1, 18)] if tier == 'quick' else [(1, 18), (seed + 100, 32)]
     for ps, nv in pools:
         bn = b.build_tables(ps, nv)
         if not bn:
@@ -124,11 +125,11 @@ def table_jobs(b, prop, tier, seed):
     return jobs
 
 
-SETUP_EXTRA.append(lambda b: b.build_tables(1, 16))
+SETUP_EXTRA.append(lambda b: b.build_tables(1, 18))
 
 TGEN = ('Program generator verif/gen_tables.py: families of table definitions sharing one hash (NOP_TABLE_NS / NOP_TABLE_HASH / NOP_TABLE) obtained by a random walk '
         'of evolution steps (add id, remove id, mark deleted, reorder, swap in a fungible type; ids never reused) over a pool of 7 entry ids with 1-3 fungible C++ '
-        'types each; every state of the walk is a version (16 versions quick; thorough adds a 24-version pool from VERIF_SEED); some versions are also nested in a '
+        'types each; every state of the walk is a version (3 families x 6 versions quick; thorough adds a 32-version pool from VERIF_SEED); some versions are also nested in a '
         'structure, a vector and another table\'s entry. ')
 PROPS['C07'] = dict(level='exploration', jobs=table_jobs,
                     rule=TGEN + 'All ordered (writer, reader) pairs within a family x rapidcheck-generated assignments of empty/non-empty entry values (values drawn from the '
@@ -204,7 +205,20 @@ PROPS['C17'] = dict(level='exploration', jobs=single_jobs('rw', 8, 16, ['--scale
                     'with a cursor model up to and including the first failing call; plus 54 constexpr constants serialized at compile time and compared byte for byte with run-time serialization. '
                     'Non-trivial = the sequence reaches a first failing call after a successful multi-byte call.',
                     assumptions=['FdReader/FdWriter have no Skip: Skip ops are no-ops for them'])
-PROPS['C19'] = dict(level='exploration', jobs=single_jobs('threads', 8, 16, ['--scale', '6']),
+def c19_jobs(b, prop, tier, seed):
+    t = single_jobs('threads', 8, 16, ['--scale', '6'])(b, prop, tier, seed)
+    # The same programs without ThreadSanitizer (ASan+UBSan): the sequential-model oracle alone. clang 14's TSan runtime can
+    # deadlock inside ReportRace on some races; such a job is cut off by its timeout (INCOMPLETE, never a verdict) while the
+    # other shards and this build still report.
+    a = single_jobs('threads_asan', 4, 8, ['--scale', '6'])(b, prop, tier, seed)
+    if t is None or a is None:
+        return None
+    for j in t:
+        j.timeout = 420 if tier == 'quick' else 3600
+    return t + a
+
+
+PROPS['C19'] = dict(level='exploration', jobs=c19_jobs,
                     rule='Programs for 2-8 threads generated from rapidcheck tapes in the main thread (round trips over 8 types, table cross-version reads, Variant/Optional bursts with tracked elements, '
                     'RPC calls on a thread-owned connection, ThreadLocal construct/Initialize/Get/modify/Clear on 7 shared (T,Slot) instantiations); each program runs R=5 (quick) / 50 (thorough) times '
                     'behind a start barrier with hash-derived yield/spin perturbation under ThreadSanitizer; every thread log must equal the sequential model run. '
@@ -280,8 +294,8 @@ def fuzz_jobs(prop):
             return None
         import subprocess
         jobs = list(base)
-        runs = 50000 if tier == 'quick' else 3000000
-        per_shard = 2 if tier == 'quick' else 6
+        runs = 40000 if tier == 'quick' else 3000000
+        per_shard = 1 if tier == 'quick' else 6
         for i, bn in enumerate(fz):
             # number of types in this shard
             out = subprocess.run([cb[i], '--prop', p, '--list', '1'], capture_output=True, text=True).stdout
@@ -299,6 +313,6 @@ def fuzz_jobs(prop):
 PROPS['C02']['jobs'] = fuzz_jobs('C02')
 PROPS['C04']['jobs'] = fuzz_jobs('C04')
 PROPS['C02']['rule'] += (' Plus coverage-guided fuzzing (libFuzzer, ASan+UBSan): one process per (destination type, oracle), first byte selects reader kind and limit, seed corpus = reference '
-                         'encodings of the must-hit values; 16 type-workers x 50k executions in quick, 48 x 3M in thorough (wall-clock ceiling ends a campaign, it never produces a verdict).')
+                         'encodings of the must-hit values; 8 type-workers x 40k executions in quick, 48 x 3M in thorough (wall-clock ceiling ends a campaign, it never produces a verdict).')
 PROPS['C04']['rule'] += (' Plus coverage-guided differential fuzzing (libFuzzer): arbitrary byte strings decoded by the library and by the reference decoder, per destination type.')
 SETUP_EXTRA.append(lambda b: b.build_codec('curated', 1, fuzz=True))
